@@ -42,6 +42,7 @@ package zenodb
 //@   modifies *
 //@   capture sameLayout Bool = result 0 of call core.Fields).Equals
 //@   at call dyn:onRow assert raw_only_if_same_layout: len(callarg2) == 0 || sameLayout
+//@   at call dyn:onRow assert columns_fresh_per_row: len(callarg1) == 0 || freshInLoop(callarg1)
 
 // C02: on open, the resume offsets are the per-source maximum (Advance) of the newest readable filestore's header
 // offsets and the offset file's offsets - never the offset file alone when a filestore was selected.
